@@ -214,3 +214,59 @@ func (w *vpWorld) dumpExpected() []floatingip.VerifEntry {
 	}
 	return d
 }
+
+// BOUND: topologies {1,3} (two pools with different node subnets); a deployment (replicas 2) with a reserving policy (immutable, never) or a pool p1 with a Pool object of size 2; two pods bound on nodes of different node subnets (n1, n2), both deleted and their events handled, so the reserve holds one IP per node subnet; a replacement pod is filtered (candidate nodes n1, n5, n2, n3) and bound on any node Filter approves: Bind succeeds and the IP it writes is routable from that node (node subnets taken from the configuration)
+func VerifC06_q_reserveOfSeveralSubnets() {
+	topo := []int{1, 3}[nondetChoice(2)]
+	w := vpNewWorld(topo, false)
+	if err := w.configure(); err != nil {
+		return
+	}
+	w.setDeployment(2)
+	policy, pool := "", ""
+	switch nondetChoice(3) {
+	case 0:
+		policy = "immutable"
+	case 1:
+		policy = "never"
+	default:
+		pool = "p1"
+		w.setPool("p1", 2)
+	}
+	for i, node := range []string{"n1", "n2"} {
+		name := vpPodNameOf(vpKindDp, i)
+		w.createPod(vpMakePod(name, "U"+name, vpKindDp, policy, pool, ""))
+		w.syncListers()
+		if w.bind(name, node) != nil {
+			return
+		}
+		w.setRunning(name)
+	}
+	w.syncListers()
+	for i := 0; i < 2; i++ {
+		w.deletePod(vpPodNameOf(vpKindDp, i))
+	}
+	w.syncListers()
+	for len(w.pending) > 0 {
+		_ = w.handleEvent(0)
+	}
+	repl := vpPodNameOf(vpKindDp, 7)
+	w.createPod(vpMakePod(repl, "U"+repl, vpKindDp, policy, pool, ""))
+	w.syncListers()
+	approved, err := w.filter(repl, "n1", "n5", "n2", "n3")
+	if err != nil || len(approved) == 0 {
+		return
+	}
+	verifReach("reserve-filtered")
+	node := approved[nondetChoice(len(approved))]
+	berr := w.bind(repl, node)
+	verifAssert("C06/reserve-bind-succeeds", berr == nil, "Bind failed on a node Filter approved for a pod that takes an IP of the reserve")
+	if berr != nil {
+		return
+	}
+	for _, ip := range vpBoundIPs(w.pods[repl]) {
+		x, ok := floatingip.VerifExpect(topo, ip)
+		verifAssert("C06/reserve-ip-routable", ok && vpHas(x.NodeSubnets, vpNodeSubnet[node]), "the pod was bound on "+node+" with the reserved IP "+ip+", which is not routable from that node")
+	}
+	verifAssert("C06/reserve-agree", w.agree(), "memory and store disagree")
+}
